@@ -6,11 +6,6 @@
 Require Import FL.Base.Bytes FL.Base.PathName FL.Names.FileSpec FL.Flw.Model.
 Open Scope N_scope.
 
-Definition strip_prefix (p s : bytes) : option bytes :=
-  if is_prefix p s then Some (skipn (length p) s) else None.
-Definition strip_suffix (x s : bytes) : option bytes :=
-  match strip_prefix (rev x) (rev s) with Some r => Some (rev r) | None => None end.
-
 (* the infix of a family member: name = fixed [_ infix] [.sfx] [.gz] *)
 Definition full_infix (sp : file_spec) (fixed : bytes) (name : bytes) : option bytes :=
   let n1 := match strip_suffix (dot :: gz_sfx) name with Some n => n | None => name end in
